@@ -94,8 +94,23 @@ theorem refRemove_perm {L L' : List (Entry ι V)} (h : IdNodup L) (hp : L.Perm L
 theorem IdNodup.refRemove {L : List (Entry ι V)} (h : IdNodup L) (id : ι) : IdNodup (refRemove L id) := by
   rw [refRemove_eq_filter h]; exact List.Pairwise.sublist List.filter_sublist h
 
-theorem IdNodup.refRetain {L : List (Entry ι V)} (h : IdNodup L) (f : ι → V → Bool) : IdNodup (refRetain L f) :=
-  List.Pairwise.sublist List.filter_sublist h
+/-- `retain` keeps pattern and id of the entries it keeps. -/
+theorem mem_refRetain {L : List (Entry ι V)} {f : ι → V → Option V} {e : Entry ι V} (h : e ∈ refRetain L f) :
+    ∃ e0 ∈ L, e.pat = e0.pat ∧ e.id = e0.id ∧ f e0.id e0.val = some e.val := by
+  simp only [refRetain, List.mem_filterMap, Option.map_eq_some_iff] at h
+  obtain ⟨e0, he0, v', hf, rfl⟩ := h
+  exact ⟨e0, he0, rfl, rfl, hf⟩
+
+theorem IdNodup.refRetain {L : List (Entry ι V)} (h : IdNodup L) (f : ι → V → Option V) :
+    IdNodup (refRetain L f) := by
+  unfold IdNodup Tree.refRetain at *
+  rw [List.pairwise_filterMap]
+  refine h.imp ?_
+  intro a b hab a' ha' b' hb'
+  simp only [Option.mem_def, Option.map_eq_some_iff] at ha' hb'
+  obtain ⟨_, _, rfl⟩ := ha'
+  obtain ⟨_, _, rfl⟩ := hb'
+  exact hab
 
 /-- `insert` keeps ids distinct when the id, if in use, is in use for the same pattern. -/
 theorem IdNodup.refInsert {L : List (Entry ι V)} (h : IdNodup L) {p : List Char} {id : ι}
@@ -170,9 +185,11 @@ theorem step_spec (E : Engine) {Good : List Char → Prop} {good : List Char →
     exact refRemove_perm (hnd.perm hperm.symm) hperm id
   | retain f =>
     refine ⟨t.retain f, rfl, ⟨inv_retain t f hinv, ?_⟩, hnd.refRetain f,
-      fun e he => hdom e (List.mem_filter.1 he).1⟩
+      fun e he => by
+        obtain ⟨e0, he0, hp, _, _⟩ := mem_refRetain he
+        rw [hp]; exact hdom e0 he0⟩
     rw [contents_retain]
-    exact hperm.filter _
+    exact hperm.filterMap _
   | cache limit level =>
     obtain ⟨t', n, h1, hs, _⟩ := treeCache_spec E t limit level
     refine ⟨t', by simp [treeStep, h1], ⟨?_, ?_⟩, hnd, hdom⟩
